@@ -250,6 +250,41 @@ func (e *Engine) evalIdent(c *evalCtx, name string) Val {
 			return v
 		}
 	}
+	if c.fr != nil && c.at != nil && !c.inOld {
+		// a parameter that is reassigned in a loop: at a program point inside (or at the head of) the loop its name
+		// denotes the loop-carried value (phi), not the entry value bound in the environment
+		if _, isEnv := c.env[name]; isEnv {
+			for _, p := range c.fr.fn.Params {
+				if p.Name() != name {
+					continue
+				}
+				var best *ssa.Phi
+				for _, b := range c.fr.fn.Blocks {
+					if !(b == c.at || b.Dominates(c.at)) {
+						continue
+					}
+					for _, in := range b.Instrs {
+						ph, ok := in.(*ssa.Phi)
+						if !ok {
+							break
+						}
+						if ph.Comment != name {
+							continue
+						}
+						if _, have := c.fr.regs[ph]; !have {
+							continue
+						}
+						if best == nil || best.Block().Dominates(b) {
+							best = ph
+						}
+					}
+				}
+				if best != nil {
+					return c.fr.regs[best]
+				}
+			}
+		}
+	}
 	if c.fr != nil && c.fr.isTop && !c.inOld {
 		// at a program point (loop invariant, atcall): an address-taken parameter has a current value that may differ
 		// from its entry value bound in the environment
